@@ -14,7 +14,10 @@
     rows as rows to predict on before the matrix is prepared, so the featurizer's fitting rows are the rows that are fit;
  R8 callers slice the prepared matrix with the same bounds as the frames it was built from (bootstrap model and strata; the
     conformal callers are decided in C04.R6 / C05.R3);
- R9 typestate: prepare_data is called exactly once per Featurizer object (it appends to the feature lists).
+ R9 typestate: prepare_data is called exactly once per Featurizer object (it appends to the feature lists);
+ R12 absorbed-has-intercept: rows whose intercept is set to 0 (the states listed for a separate model) get a constant column of
+    their own in the same pass - otherwise the rows of a listed state that fall in the level dropped 'for the intercept' have
+    neither intercept nor indicator (today nothing replaces it: open known finding K4).
 Observation (no rule): _get_categories_for_fe tests startswith(fe) while the expansion uses startswith(fe + '_'); they differ only
 if one fixed-effect name is a prefix of another.
 """
@@ -360,3 +363,34 @@ def check(ctx):
                     detail = f"holdout mark is {ir.show(arg[3], maxdepth=4)[:160]}: not 'reporting := 0 on rows [train_rows : n_train]'"
         ctx.ob("C16.R11.fitting-rows", f"{bf.qualname}|featurizer fitting rows = the rows that are fit", ok9, bf.where(), detail)
 
+    # ---- R12 a level absorbed by the intercept needs the intercept --------------------------------------------------
+    # prepare_data zeroes the intercept on the rows of every state listed for a separate model.  "Exactly one observed level per fixed
+    # effect absorbed by the intercept" (and every row having a constant term at all) then needs those rows to get a constant column of
+    # their own: otherwise the rows of a listed state whose level is the dropped one (fixed effect postal_code with that state first;
+    # the reference stratum of the strata matrix) are all zero - no intercept, no indicator.
+    zs = []
+    comp = []
+    pdsum = ctx.builder().summarize(pd_, self_cls=cls)
+    for _, _, t_, _ in pdsum.assigns:
+        for x in ir.walk(t_):
+            if x[0] != "setitem":
+                continue
+            k_, v_ = x[2], x[3]
+            if k_[0] == "tuple" and len(k_[1]) == 2 and k_[1][1] == ("const", "intercept") and v_[0] == "const" and v_[1] != 1 and x not in zs:
+                zs.append(x)
+            elif k_[0] == "fstr" and any(p_[0] == "const" and isinstance(p_[1], str) and "intercept" in p_[1] for p_ in k_[1]) \
+                    and any(p_[0] == "elem" for p_ in k_[1]) and x not in comp:
+                comp.append(x)
+    for z in zs:
+        mask = z[2][1][0]
+        elems = {e for e in ir.walk(mask) if e[0] == "elem"}
+        paired = [c for c in comp if elems & {e for e in ir.walk(c[2]) if e[0] == "elem"}]
+        ok12 = bool(paired)
+        ctx.ob("C16.R12.absorbed-has-intercept", f"{pd_.qualname}|rows whose intercept is zeroed get a constant column of their own", ok12, pd_.where(),
+               "the rows whose intercept is set to 0 receive a state-specific intercept column in the same pass" if ok12 else
+               f"the intercept is set to 0 where {ir.show(mask, maxdepth=5)} and nothing replaces it: rows of a listed state that fall in the level "
+               f"dropped 'for the intercept' (fixed_effects=['postal_code'] with that state first in order; the reference stratum of the strata "
+               f"matrix) have neither intercept nor indicator")
+    if not zs:
+        ctx.ob("C16.R12.absorbed-has-intercept", f"{pd_.qualname}|the intercept is 1 on every row", True, pd_.where(),
+               "the intercept column is not zeroed anywhere: every dropped level is absorbed by it")
